@@ -6,7 +6,7 @@
 From Coq Require Import String.
 From Coq Require Import List NArith ZArith Bool.
 From NV Require Import Lib.Val Lib.Res Gen.Prep Prep.Model Prep.ProofsNum Prep.Proofs Prep.ProofsBoard.
-From NV Require Prep.Detect.
+From NV Require Prep.Detect Prep.Resize.
 Import ListNotations.
 Open Scope N_scope.
 
@@ -199,3 +199,34 @@ Theorem C17_maybefat_never_chosen : forall l b r,
   In (b, Prep.Detect.KFat) l /\ In (r, Prep.Detect.KNot) l.
 Proof. exact Prep.Detect.maybefat_never_chosen. Qed.
 Print Assumptions C17_maybefat_never_chosen.
+
+(* "the image is at least the requested size": the image file is grown, never shrunk and never rewritten (the block of
+   prepare_image and config.size are pinned by facts regenerated from prep.py / config.py) *)
+Theorem C17_resize_source_facts :
+  resize_block_standard = true /\ size_parser_standard = true /\
+  Prep.Resize.size_of size_default_mantissa 0 Prep.Resize.SGB = 17179869184 /\ size_default_suffix = [71; 66].
+Proof. repeat split; reflexivity. Qed.
+Print Assumptions C17_resize_source_facts.
+
+Theorem C17_image_at_least_requested_size : forall image want,
+  want <= Prep.Resize.len (Prep.Resize.resize image want) /\
+  Prep.Resize.len (Prep.Resize.resize image want) = N.max (Prep.Resize.len image) want /\
+  firstn (List.length image) (Prep.Resize.resize image want) = image.
+Proof.
+  intros image want. split; [apply Prep.Resize.resize_at_least|].
+  split; [apply Prep.Resize.resize_exact|apply Prep.Resize.resize_keeps_content].
+Qed.
+Print Assumptions C17_image_at_least_requested_size.
+
+Theorem C17_resize_adds_zeros : forall image want i,
+  (List.length image <= i)%nat -> (i < List.length (Prep.Resize.resize image want))%nat ->
+  nth i (Prep.Resize.resize image want) 255 = 0.
+Proof. exact Prep.Resize.resize_tail_zero. Qed.
+Print Assumptions C17_resize_adds_zeros.
+
+(* the requested size as written on the command line: a fraction is rounded down to whole bytes *)
+Theorem C17_size_truncates : forall mant frac s,
+  Prep.Resize.size_of mant frac s * 10 ^ frac <= mant * 2 ^ (10 * Prep.Resize.power s) /\
+  mant * 2 ^ (10 * Prep.Resize.power s) < (Prep.Resize.size_of mant frac s + 1) * 10 ^ frac.
+Proof. exact Prep.Resize.size_truncates. Qed.
+Print Assumptions C17_size_truncates.
